@@ -437,6 +437,12 @@ def main():
         return 0
     if a[0] == "replay":
         return do_replay(a[1])
+    if a[0] == "dev":
+        # developer aid: check.py dev <ID> <job> [harness args...]  -> build + run one harness process, raw output
+        job = [j for j in PROPS[a[1]]["jobs"] if j["name"] == a[2]][0]
+        wdir = worlds.build(job["world"])
+        exe = compile_harness(wdir, job["world"], job)
+        return subprocess.run([exe] + list(job.get("args", [])) + a[3:], env=ENV).returncode
     pid = a[0]
     tier = os.environ.get("VERIF_TIER", "quick")
     if "--tier" in a:
